@@ -354,6 +354,51 @@ OUTPUT_COUNT_ATTRS = {"Split": "num_outputs"}
 N_VARIADIC_OUT = 2
 
 
+def slot_names(schema, case):
+    """sentinel names of the present input slots, in schema order (one per positional slot)"""
+    out = []
+    for formal in schema.inputs:
+        kind = formal.option.name
+        if kind == "Single" or (kind == "Optional" and formal.name in case["present"]):
+            out.append(f"in_{formal.name}")
+        elif kind == "Variadic":
+            out += [f"in_{formal.name}_{i}" for i in range(case["variadic"] or 0)]
+    return out
+
+
+def rep_map(case):
+    """slot name -> name of the slot whose Var it shares (`case["same"]`: groups of slots given
+    the *same* Var object; the group is named after its first member)"""
+    m = {}
+    for group in case.get("same") or []:
+        for s in group:
+            m[s] = group[0]
+    return m
+
+
+def repeat_patterns(slots, rng, n_random=1):
+    """groups of slots that receive one and the same Var"""
+    pats = []
+    if len(slots) >= 2:
+        pats.append([list(slots)])                       # one Var everywhere
+        pats.append([[slots[0], slots[-1]]])             # first slot = last non-empty slot
+        if len(slots) >= 3:
+            pats.append([[slots[0], slots[1]]])          # repeat early, distinct tail
+            pats.append([[slots[-2], slots[-1]]])        # repeat at the very end
+            pats.append([[slots[1], slots[-1]]])
+            pats.append([slots[0::2]])                   # a, b, a, b, a
+        for _ in range(n_random):
+            k = rng.randrange(2, len(slots) + 1)
+            pats.append([sorted(rng.sample(slots, k), key=slots.index)])
+    seen, out = set(), []
+    for p_ in pats:
+        key = tuple(tuple(g) for g in p_)
+        if key not in seen and all(len(g) >= 2 for g in p_):
+            seen.add(key)
+            out.append(p_)
+    return out
+
+
 def gen_cases(schema, rng, budget_extra: int, all_attr_subsets_upto: int = 3):
     """Subsets of optional inputs x attribute subsets (none / all / one at a time / a few random)."""
     opt_inputs = [p.name for p in schema.inputs if p.option.name == "Optional"]
@@ -402,10 +447,21 @@ def gen_cases(schema, rng, budget_extra: int, all_attr_subsets_upto: int = 3):
             "mode": rng.choice(["kw", "pos"]),
             "variant": rng.randrange(2),
         })
+    # the same Var in several slots (emission must depend on positions, not on argument identity):
+    # every presence pattern x {all slots, first = last non-empty, early pair, last pair, alternate, random}
+    k = 0
+    for ins in in_subsets:
+        for vc in sorted(set(var_counts) | ({3} if variadic else set())):
+            base = {"present": sorted(ins), "variadic": vc}
+            slots = slot_names(schema, base)
+            for pat in repeat_patterns(slots, rng):
+                cases.append({**base, "attrs": sorted(required_attrs), "mode": "pos" if k % 2 else "kw", "same": pat})
+                k += 1
     # de-duplicate
     seen, out = set(), []
     for c in cases:
-        key = (tuple(c["present"]), c["variadic"], tuple(c["attrs"]), c["mode"], c.get("variant", 0))
+        key = (tuple(c["present"]), c["variadic"], tuple(c["attrs"]), c["mode"], c.get("variant", 0),
+               repr(c.get("same")))
         if key not in seen:
             seen.add(key)
             out.append(c)
@@ -454,24 +510,30 @@ def run_case1(env: Env, fn, schema, case, prefer_seq):
     keep = []
     args = {}
     arg_desc = {}
+    rep = rep_map(case)
+    by_name = {}
+
+    def mk(slot, formal):
+        """the Var for a slot: a fresh argument, or the Var of the slot it is declared to share"""
+        r_ = rep.get(slot, slot)
+        if r_ not in by_name:
+            v = env.argument(sentinel_type(env, formal, prefer_seq))
+            keep.append(v)
+            names[id(v)] = r_
+            by_name[r_] = v
+        return by_name[r_]
+
     for formal in schema.inputs:
         kind = formal.option.name
         if kind == "Single" or (kind == "Optional" and formal.name in case["present"]):
-            v = env.argument(sentinel_type(env, formal, prefer_seq))
-            keep.append(v)
-            names[id(v)] = f"in_{formal.name}"
+            v = mk(f"in_{formal.name}", formal)
             args[formal.name] = v
-            arg_desc[formal.name] = {"k": "s" if kind == "Single" else "o", "v": f"in_{formal.name}"}
+            arg_desc[formal.name] = {"k": "s" if kind == "Single" else "o", "v": names[id(v)]}
         elif kind == "Optional":
             args[formal.name] = None
             arg_desc[formal.name] = {"k": "o", "v": None}
         else:
-            vs = []
-            for i in range(case["variadic"] or 0):
-                v = env.argument(sentinel_type(env, formal, prefer_seq))
-                keep.append(v)
-                names[id(v)] = f"in_{formal.name}_{i}"
-                vs.append(v)
+            vs = [mk(f"in_{formal.name}_{i}", formal) for i in range(case["variadic"] or 0)]
             args[formal.name] = vs
             arg_desc[formal.name] = {"k": "v", "v": [names[id(v)] for v in vs]}
     cb_vars = [env.argument(env.ts.Tensor(np.float32, (2, 3))) for _ in range(2)]
@@ -601,6 +663,7 @@ def expected_inputs(schema, case):
     """The property's wording, independently: each argument in its schema slot, inner omitted
     optionals as empty names, omitted trailing optionals dropped (ONNX's minimal arity kept)."""
     full = []
+    rep = rep_map(case)
     for formal in schema.inputs:
         kind = formal.option.name
         if kind == "Single":
@@ -609,6 +672,7 @@ def expected_inputs(schema, case):
             full.append(f"in_{formal.name}" if formal.name in case["present"] else "")
         else:
             full += [f"in_{formal.name}_{i}" for i in range(case["variadic"] or 0)]
+    full = [rep.get(x, x) for x in full]  # slots sharing a Var carry that Var's one name
     n = len(full)
     while n > 0 and full[n - 1] == "" and n > schema.min_input:
         n -= 1
@@ -721,19 +785,29 @@ def _i64(*shape):
 # public API (constructors of the opset module, spox.argument, spox.build) and the ModelProto
 PUBLIC_SPECS = [
     {"op": "Clip", "inputs": {"input": _f32(2), "min": _f32(), "max": _f32()}, "attrs": {}},
-    {"op": "Concat", "inputs": {"inputs": [_f32(2), _f32(3), _f32(1)]}, "attrs": {"axis": 0}},
-    {"op": "Sum", "inputs": {"data_0": [_f32(2), _f32(2)]}, "attrs": {}},
+    {"op": "Clip", "inputs": {"input": _f32(), "min": _f32(), "max": _f32()}, "attrs": {},
+     "same": [[["in_input", "in_min", "in_max"]], [["in_input", "in_max"]], [["in_min", "in_max"]], [["in_input", "in_min"]]]},
+    {"op": "Where", "inputs": {"condition": ("bool", (2,)), "X": _f32(2), "Y": _f32(2)}, "attrs": {},
+     "same": [[["in_X", "in_Y"]]]},
+    {"op": "Concat", "inputs": {"inputs": [_f32(2), _f32(3), _f32(2)]}, "attrs": {"axis": 0},
+     "same": [[["in_inputs_0", "in_inputs_2"]], [["in_inputs_0", "in_inputs_1", "in_inputs_2"]]]},
+    {"op": "Sum", "inputs": {"data_0": [_f32(2), _f32(2)]}, "attrs": {}, "same": [[["in_data_0_0", "in_data_0_1"]]]},
+    {"op": "Max", "inputs": {"data_0": [_f32(2), _f32(2), _f32(2)]}, "attrs": {},
+     "same": [[["in_data_0_0", "in_data_0_2"]], [["in_data_0_1", "in_data_0_2"]]]},
     {"op": "ReduceSum", "inputs": {"data": _f32(2, 3), "axes": _i64(1)}, "attrs": {"keepdims": 0, "noop_with_empty_axes": 1}},
     {"op": "ReduceMax", "inputs": {"data": _f32(2, 3), "axes": _i64(1)}, "attrs": {"keepdims": 0, "noop_with_empty_axes": 1, "axes": [1]}},
     {"op": "Gemm", "inputs": {"A": _f32(2, 2), "B": _f32(2, 2), "C": _f32(2, 2)},
-     "attrs": {"alpha": 0.625, "beta": 0.375, "transA": 1, "transB": 1}},
+     "attrs": {"alpha": 0.625, "beta": 0.375, "transA": 1, "transB": 1},
+     "same": [[["in_A", "in_B", "in_C"]], [["in_A", "in_C"]], [["in_B", "in_C"]]]},
     {"op": "LeakyRelu", "inputs": {"X": _f32(2)}, "attrs": {"alpha": 0.625}},
     {"op": "Cast", "inputs": {"input": _f32(2)}, "attrs": {"to": "np.int32", "saturate": 0}},
     {"op": "Pad", "inputs": {"data": _f32(2, 2), "pads": _i64(4), "constant_value": _f32(), "axes": _i64(2)},
      "attrs": {"mode": "reflect"}},
     {"op": "Resize", "inputs": {"X": _f32(1, 1, 2, 2), "roi": _f32(8), "scales": _f32(4), "sizes": _i64(4)},
      "subsets": [["scales"], ["roi", "scales"], ["sizes"], ["roi", "sizes"]], "attrs": {"mode": "linear"}},
-    {"op": "Slice", "inputs": {"data": _f32(4, 4), "starts": _i64(1), "ends": _i64(1), "axes": _i64(1), "steps": _i64(1)}, "attrs": {}},
+    {"op": "Slice", "inputs": {"data": _f32(4, 4), "starts": _i64(1), "ends": _i64(1), "axes": _i64(1), "steps": _i64(1)}, "attrs": {},
+     "same": [[["in_starts", "in_axes"]], [["in_starts", "in_ends", "in_axes", "in_steps"]], [["in_starts", "in_steps"]],
+              [["in_ends", "in_steps"]], [["in_starts", "in_ends"]]]},
     {"op": "Dropout", "inputs": {"data": _f32(2), "ratio": _f32(), "training_mode": ("bool", ())}, "attrs": {"seed": 3}},
     {"op": "TopK", "inputs": {"X": _f32(4), "K": _i64(1)}, "attrs": {"axis": 0, "largest": 0, "sorted": 0}},
     {"op": "Conv", "inputs": {"X": _f32(1, 1, 4, 4), "W": _f32(1, 1, 2, 2), "B": _f32(1)},
@@ -743,7 +817,8 @@ PUBLIC_SPECS = [
     {"op": "LSTM", "inputs": {"X": _f32(3, 1, 2), "W": _f32(1, 8, 2), "R": _f32(1, 8, 2), "B": _f32(1, 16),
                               "sequence_lens": ("int32", (1,)), "initial_h": _f32(1, 1, 2), "initial_c": _f32(1, 1, 2),
                               "P": _f32(1, 6)},
-     "attrs": {"hidden_size": 2, "direction": "forward", "clip": 0.625}, "always": ["hidden_size"]},
+     "attrs": {"hidden_size": 2, "direction": "forward", "clip": 0.625}, "always": ["hidden_size"],
+     "same": [[["in_W", "in_R"]], [["in_initial_h", "in_initial_c"]], [["in_W", "in_R"], ["in_initial_h", "in_initial_c"]]]},
     {"op": "GRU", "inputs": {"X": _f32(3, 1, 2), "W": _f32(1, 6, 2), "R": _f32(1, 6, 2), "B": _f32(1, 12),
                              "sequence_lens": ("int32", (1,)), "initial_h": _f32(1, 1, 2)},
      "attrs": {"hidden_size": 2, "linear_before_reset": 1}, "always": ["hidden_size"]},
@@ -762,7 +837,7 @@ PUBLIC_SPECS = [
 ]
 
 
-def public_case(env: Env, fn, schema, spec, present, attrs_given, mod=None):
+def public_case(env: Env, fn, schema, spec, present, attrs_given, mod=None, same=None):
     """constructor -> spox.build -> the operator's NodeProto in the ModelProto (public API only)"""
     np = env.np
 
@@ -771,20 +846,25 @@ def public_case(env: Env, fn, schema, spec, present, attrs_given, mod=None):
 
     args, build_in = {}, {}
     nvar = None
+    rep = rep_map({"same": same})
+
+    def var_for(slot, t):
+        r_ = rep.get(slot, slot)
+        if r_ not in build_in:
+            build_in[r_] = mk(t)
+        return build_in[r_]
+
     for formal in schema.inputs:
         kind = formal.option.name
         t = spec["inputs"].get(formal.name)
         if kind == "Variadic":
-            vs = [mk(x) for x in (t or [])]
+            vs = [var_for(f"in_{formal.name}_{i}", x) for i, x in enumerate(t or [])]
             nvar = len(vs)
             args[formal.name] = vs
-            for i, v in enumerate(vs):
-                build_in[f"in_{formal.name}_{i}"] = v
         elif kind == "Single" or formal.name in present:
             if t is None:
                 return None
-            args[formal.name] = mk(t)
-            build_in[f"in_{formal.name}"] = args[formal.name]
+            args[formal.name] = var_for(f"in_{formal.name}", t)
         else:
             args[formal.name] = None
     given = {}
@@ -792,6 +872,8 @@ def public_case(env: Env, fn, schema, spec, present, attrs_given, mod=None):
         v = spec["attrs"][a]
         given[a] = np.int32 if v == "np.int32" else v
     case = {"present": sorted(present), "variadic": nvar, "attrs": sorted(given), "mode": "kw", "public": True}
+    if same:
+        case["same"] = same
     shape_of = getattr(mod, "shape", None) or env.op17.shape  # same opset as the operator under test
     r = {"status": "ok", "given": given, "extra": {}, "node": None}
     try:
@@ -836,7 +918,7 @@ def public_oracle(ck, env: Env, stats):
         except Exception as e:  # noqa: BLE001
             ck.broken("correspondence", f"module {pymod} not importable", f"{type(e).__name__}: {e}")
             continue
-        for spec in PUBLIC_SPECS:
+        for si, spec in enumerate(PUBLIC_SPECS):
             op = spec["op"]
             schema = force.get(op)
             ctors = getattr(mod, "_CONSTRUCTORS", {})
@@ -854,18 +936,29 @@ def public_oracle(ck, env: Env, stats):
             optional = [a for a in avail if a not in required]
             attr_sets = [required, required + optional] + [required + [a] for a in optional]
             seen = set()
+            combos = []
             for present in subsets:
                 present = [x for x in present if x in opt_inputs]
                 for attrs_given in attr_sets:
-                    key = (tuple(present), tuple(sorted(attrs_given)))
+                    combos.append((present, attrs_given, None))
+                # the same Var in several slots (all slots of the groups must be present)
+                have = set(slot_names(schema, {"present": present, "variadic": len(next(
+                    (v for v in spec["inputs"].values() if isinstance(v, list)), []))}))
+                for same in spec.get("same", []):
+                    if all(s in have for g in same for s in g):
+                        combos.append((present, required, same))
+            for present, attrs_given, same in combos:
+                    key = (tuple(present), tuple(sorted(attrs_given)), repr(same))
                     if key in seen:
                         continue
                     seen.add(key)
                     try:
-                        res = public_case(env, fn, schema, spec, set(present), attrs_given, mod)
+                        res = public_case(env, fn, schema, spec, set(present), attrs_given, mod, same)
                         if res is None:
                             continue
                         case, r = res
+                        case["spec"] = si
+                        stats["public_repeated_var"] = stats.get("public_repeated_var", 0) + int(bool(same))
                         verdicts = judge(env, mid, op, version, schema, case, r)
                         verdicts += import_verdict(env, mid, op, schema, r)
                     except Exception as e:  # noqa: BLE001
@@ -1048,7 +1141,7 @@ def internal_oracle(ck, env: Env, info, stats, extra):
                     cache[ckey] = runs
                 for case, r in cache[ckey]:
                     stats["calls"] += 1
-                    ck.count(("call", mid, op, tuple(case["present"]), case["variadic"], tuple(case["attrs"]), case["mode"], case.get("variant", 0)))
+                    ck.count(("call", mid, op, tuple(case["present"]), case["variadic"], tuple(case["attrs"]), case["mode"], case.get("variant", 0), repr(case.get("same"))))
                     for key, what in judge(env, mid, op, version, schema, case, r, cls):
                         ck.failure(key, what, {"module": mid, "op": op, "kind": "call", "case": case})
                     if r["status"] == "unobservable":
@@ -1064,6 +1157,7 @@ def internal_oracle(ck, env: Env, info, stats, extra):
                         stats["with_omitted_inner_optional"] += int("" in list(p.input))
                         stats["with_trimmed_trailing"] += int(len(p.input) < len(schema.inputs))
                         stats["attr_values_checked"] += len(r["given"])
+                        stats["repeated_var_calls"] = stats.get("repeated_var_calls", 0) + int(bool(case.get("same")))
                         stats["dtype_attrs"] += len(r["dtype_attrs"])
                         stats["graph_attr_calls"] += int(any(sa.type.name == "GRAPH" for sa in schema.attributes.values()))
                         if (mid, op) in pairs:
@@ -1204,7 +1298,8 @@ def replay(ck: core.Check, doc) -> bool:
     verdicts = reflect(env, mid, op, cls, fn, schema) if c.get("kind") == "reflect" else []
     if c.get("kind") == "public" and fn is not None and find_spec(op) is not None:
         cs = c["case"]
-        res = public_case(env, fn, schema, find_spec(op), set(cs["present"]), cs["attrs"], mod)
+        spec = PUBLIC_SPECS[cs["spec"]] if "spec" in cs and cs["spec"] < len(PUBLIC_SPECS) and PUBLIC_SPECS[cs["spec"]]["op"] == op else find_spec(op)
+        res = public_case(env, fn, schema, spec, set(cs["present"]), cs["attrs"], mod, cs.get("same"))
         if res is not None:
             verdicts += judge(env, mid, op, version, schema, res[0], res[1])
             verdicts += import_verdict(env, mid, op, schema, res[1])
